@@ -1,4 +1,5 @@
 import CV.Proofs.ConnClose
+import CV.Proofs.ConnAccept
 /-
 C12 — Every connection: one connect, ordered reads, one disconnect, then no trace.
 
@@ -382,5 +383,194 @@ example : Client.trace ([.connect .ok, .write 3, .stopped, .writable (.acc 3), .
 example : Client.noReconnect Client.pipeInit [.readable (.data [1]), .stopped, .connect .failed] = true := by decide
 example : Client.pipeTrace [.readable (.data [1]), .stopped, .connect .failed] = [.read [1], .disconnected, .error] := by
   decide
+
+/-! ### the accept path: the listening socket as a model object (`AOp`, CV/Model/ConnAccept.lean)
+
+Histories `List AOp`: everything above (`.x`), plus server start (`.start`: the listening socket is registered as
+reader), `_read(listening socket)` with the kernel's answer to `accept()` (`.lready`: a new socket, a new socket whose
+peer has already reset, any errno), and `_close(listening socket)` (`.lclose`); a server-wide close / stop now also
+closes the listening socket. -/
+
+/-- **The extension is conservative**: a history without listening-socket operations shows exactly what it showed
+before, and leaves the same connection state. -/
+theorem a_extends (k : Poller.Kind) (ops : List XOp) :
+    atrace k (ops.map .x) = xtrace k ops ∧ (arun k (ops.map .x)).1.c = (xrun k ops).1 :=
+  ⟨(arunFrom_x (AState.init k) ops).2, (arunFrom_x (AState.init k) ops).1⟩
+
+/-- **`spec_holds` for histories with the accept path**: whatever the kernel answers to `accept()` and whenever the
+listening socket is started / closed, per socket the events follow `connect (read|error)* disconnect` (or a lone `error`
+for a connection reset before it was announced): in particular no `read`/`disconnect` before the `connect`. -/
+theorem spec_holds_a (k : Poller.Kind) (ops : List AOp) : specTrace (atrace k ops) = true := by
+  have h := (ok_arun k ops).spec
+  simp only [specTrace, atrace]
+  rw [h]; rfl
+
+/-- **`lifecycle` for histories with the accept path.** -/
+theorem lifecycle_a (k : Poller.Kind) (ops : List AOp) (o : Poller.Obj) :
+    lifeOf o (atrace k ops) = [] ∨ lifeOf o (atrace k ops) = [.connect o] ∨
+    lifeOf o (atrace k ops) = [.connect o, .disconnect o] := by
+  have h := life_ok {} (atrace k ops) o (ok_arun k ops).spec
+  simpa [allowedLife] using h
+
+/-- **`tables_only_connected` / `connected_iff_open` for histories with the accept path.** -/
+theorem tables_a (k : Poller.Kind) (ops : List AOp) (o : Poller.Obj) :
+    let s := (arun k ops).1.c
+    (o ∈ s.clients ↔ (s.p.w.fno o).isSome = true) ∧
+    (o ∉ s.clients → s.buffers o = none ∧ o ∉ s.closeq ∧ o ∉ s.p.read ∧ o ∉ s.p.write ∧ s.p.targets o = none ∧
+      (∀ f, s.p.map f ≠ some o)) :=
+  ⟨⟨(ok_arun k ops).inv.O o, (ok_arun k ops).inv.C o⟩, fun h => no_table (ok_arun k ops).inv h⟩
+
+/-- **`no_trace` for histories with the accept path.** -/
+theorem no_trace_a (k : Poller.Kind) (pre post : List AOp) (o : Poller.Obj)
+    (h : Obs.disconnect o ∈ atrace k pre) :
+    let s := (arun k (pre ++ post)).1.c
+    o ∉ s.clients ∧ s.buffers o = none ∧ o ∉ s.closeq ∧ o ∉ s.p.read ∧ o ∉ s.p.write ∧
+    s.p.targets o = none ∧ (∀ f, s.p.map f ≠ some o) ∧ s.p.w.fno o = none := by
+  intro s
+  have h1 := ok_arun k pre
+  have g : (specAdv {} (arun k pre).2).ph o = .gone := gone_after_disconnect {} _ o h1.spec h
+  have h2 := ok_arunFrom (σ := specAdv {} (arun k pre).2) post h1.inv h1.rel
+  have g2 := specAdv_final _ (arunFrom (arun k pre).1 post).2 o (Or.inl g) h2.spec
+  have es : s = (arunFrom (arun k pre).1 post).1.c := by
+    show (arunFrom (AState.init k) (pre ++ post)).1.c = _
+    rw [arunFrom_append]; rfl
+  rw [es]
+  have hnc : o ∉ (arunFrom (arun k pre).1 post).1.c.clients := by
+    intro hc
+    have := (h2.rel.conn o).mpr hc
+    rw [g2, g] at this; cases this
+  obtain ⟨a1, a2, a3, a4, a5, a6⟩ := no_table h2.inv hnc
+  refine ⟨hnc, a1, a2, a3, a4, a5, a6, ?_⟩
+  cases hf : (arunFrom (arun k pre).1 post).1.c.p.w.fno o with
+  | none => rfl
+  | some f => exact absurd (h2.inv.C o (by simp [hf])) hnc
+
+/-- **Every accepted socket is announced exactly once, first of all, and is registered as reader**: when, after any
+history, the listening socket is readable and `accept()` returns a new socket `o` (peer alive), the op shows exactly
+`connect o`; `o` is then a client, in the poller's `_read` with the server as target; and in every continuation the
+`connect`/`disconnect` events of `o` are `[connect o]` or `[connect o, disconnect o]` - one `connect`, before any
+`disconnect` (and before any `read`: `spec_holds_a`). -/
+theorem accepted_announced_once (k : Poller.Kind) (pre post : List AOp) (o : Poller.Obj) (f : Nat)
+    (hl : (arun k pre).1.l = .listening) (hv : (arun k pre).1.c.p.w.canOpen o f = true) :
+    let r := astep (arun k pre).1 (.lready (.sock o f false))
+    r.2 = [.connect o, .tab (rows r.1.c)] ∧ o ∈ r.1.c.clients ∧ o ∈ r.1.c.p.read ∧
+    r.1.c.p.targets o = some srvChan ∧
+    (lifeOf o (atrace k (pre ++ [.lready (.sock o f false)] ++ post)) = [.connect o] ∨
+     lifeOf o (atrace k (pre ++ [.lready (.sock o f false)] ++ post)) = [.connect o, .disconnect o]) := by
+  intro r
+  have hp := accept_poller (arun k pre).1.c.p o f hv
+  have e2 : r.2 = [.connect o, .tab (rows r.1.c)] := by
+    simp [r, astep, astepCore, hl, stepCore, hv]
+  refine ⟨e2, by simp [r, astep, astepCore, hl, stepCore, hv], ?_, ?_, ?_⟩
+  · simpa [r, astep, astepCore, hl, stepCore, hv] using hp.1
+  · simpa [r, astep, astepCore, hl, stepCore, hv] using hp.2
+  · have hm : Obs.connect o ∈ lifeOf o (atrace k (pre ++ [.lready (.sock o f false)] ++ post)) := by
+      simp only [lifeOf, List.mem_filter]
+      refine ⟨?_, by simp⟩
+      show Obs.connect o ∈ (arunFrom (AState.init k) (pre ++ [.lready (.sock o f false)] ++ post)).2
+      rw [arunFrom_append, arunFrom_append]
+      simp only [arunFrom, List.append_nil]
+      have : Obs.connect o ∈ r.2 := by rw [e2]; simp
+      simp only [List.mem_append]
+      exact Or.inl (Or.inr this)
+    rcases lifecycle_a k (pre ++ [.lready (.sock o f false)] ++ post) o with h | h | h
+    · rw [h] at hm; simp at hm
+    · exact Or.inl h
+    · exact Or.inr h
+
+/-- **A failed accept leaves no trace**: whatever errno `accept()` answers (tolerated or re-raised), in whatever state:
+no table of the server or the poller changes, the listening socket stays as it was, and the op shows no event at all
+(no `connect`, no `disconnect`, no `error`) - only the unchanged tables. -/
+theorem failed_accept_no_trace (k : Poller.Kind) (ops : List AOp) (e : Errno) :
+    let a := (arun k ops).1
+    let r := astep a (.lready (.errno e))
+    r.1.c = a.c ∧ r.1.l = a.l ∧ r.1.ldisc = a.ldisc ∧ r.2 = [.tab (rows a.c)] ∧
+    (tolerated e = true → r.1.raised = a.raised) := by
+  intro a r
+  by_cases hl : a.l = .listening <;> by_cases ht : tolerated e = true <;>
+    simp [r, astep, astepCore, hl, ht]
+
+/-- **A connection that was reset while it waited in the backlog** (`getpeername()` fails after `accept()`): `error`
+and the close of the new socket, never `connect` or `disconnect` - now or in any continuation - and no table mentions
+it afterwards. -/
+theorem reset_before_accept_no_trace (k : Poller.Kind) (pre post : List AOp) (o : Poller.Obj) (f : Nat)
+    (hl : (arun k pre).1.l = .listening) (hv : (arun k pre).1.c.p.w.canOpen o f = true) :
+    (astep (arun k pre).1 (.lready (.sock o f true))).2
+      = [.error o, .sclosed o, .tab (rows (astep (arun k pre).1 (.lready (.sock o f true))).1.c)] ∧
+    tbits (arun k (pre ++ [.lready (.sock o f true)] ++ post)).1.c o = 0 := by
+  refine ⟨by simp [astep, astepCore, hl, stepCore, hv], ?_⟩
+  have ok1 := ok_arun k (pre ++ [.lready (.sock o f true)])
+  have hrej : (specAdv {} (arun k (pre ++ [.lready (.sock o f true)])).2).ph o = .rej := by
+    have okp := ok_arun k pre
+    have hidle : (specAdv {} (arun k pre).2).ph o = .idle := by
+      apply (okp.rel.idle o).mpr
+      have := hv
+      simp only [Poller.World.canOpen, Bool.and_eq_true, Option.isNone_iff_eq_none] at this
+      exact this.1
+    have e : (arun k (pre ++ [.lready (.sock o f true)])).2
+        = (arun k pre).2 ++ [.error o, .sclosed o,
+            .tab (rows (astep (arun k pre).1 (.lready (.sock o f true))).1.c)] := by
+      show (arunFrom (AState.init k) (pre ++ [.lready (.sock o f true)])).2 = _
+      rw [arunFrom_append]
+      simp only [arunFrom, List.append_nil]
+      show (arun k pre).2 ++ (astep (arun k pre).1 (.lready (.sock o f true))).2 = _
+      congr 1
+      simp [astep, astepCore, hl, stepCore, hv]
+    rw [e, specAdv_append]
+    have hidle' : (List.foldl Spec.advance {} (arun k pre).2).ph o = .idle := hidle
+    simp [specAdv, Spec.advance, hidle', Poller.upd_same]
+  have h2 := ok_arunFrom (σ := specAdv {} (arun k (pre ++ [.lready (.sock o f true)])).2) post ok1.inv ok1.rel
+  have g2 := specAdv_final _ (arunFrom (arun k (pre ++ [.lready (.sock o f true)])).1 post).2 o (Or.inr hrej) h2.spec
+  have es : (arun k (pre ++ [.lready (.sock o f true)] ++ post)).1.c
+      = (arunFrom (arun k (pre ++ [.lready (.sock o f true)])).1 post).1.c := by
+    show (arunFrom (AState.init k) (pre ++ [.lready (.sock o f true)] ++ post)).1.c = _
+    rw [arunFrom_append]; rfl
+  rw [es]
+  apply tbits_zero h2.inv
+  intro hc
+  have := (h2.rel.conn o).mpr hc
+  rw [g2, hrej] at this; cases this
+
+/-- **After a server-wide close, a stop, or a close / hang-up of the listening socket itself, the listening socket is
+in no poller table** - under every poller, after every history, and for every continuation: its phase is not
+`listening` any more; once `closed` it stays closed; in the poller state that `discard` + `close` leave behind it is
+in none of `_read`, `_write`, `_targets`, `_map` and its descriptor is closed; and exactly one `disconnect` was fired
+for it. -/
+theorem listener_released (k : Poller.Kind) (pre post : List AOp) (op : AOp)
+    (hop : op = .x .closeAll ∨ op = .x .stop ∨ op = .lclose) (hl : (arun k pre).1.l = .listening) :
+    let a := (arun k (pre ++ [op] ++ post)).1
+    a.l = .closed ∧ a.ldisc = 1 ∧
+    (Conn.lobj ∉ (lworld k a.l).read ∧ Conn.lobj ∉ (lworld k a.l).write ∧ (lworld k a.l).targets Conn.lobj = none ∧
+     inMap (lworld k a.l) Conn.lobj = false ∧ (lworld k a.l).w.fno Conn.lobj = none) ∧ lflags k a.l = 128 := by
+  intro a
+  have h1 : (astep (arun k pre).1 op).1.l = .closed := by
+    rcases hop with e | e | e <;> subst e <;> simp [astep, astepCore, closeListener, hl]
+  have e : a = (arunFrom (astep (arun k pre).1 op).1 post).1 := by
+    show (arunFrom (AState.init k) (pre ++ [op] ++ post)).1 = _
+    rw [arunFrom_append, arunFrom_append]
+    simp [arunFrom, arun]
+  have hc : a.l = .closed := by rw [e]; exact arunFrom_closed _ post h1
+  have hi : LInv a := linv_arunFrom (a := AState.init k) (pre ++ [op] ++ post) (by simp [LInv, AState.init])
+  refine ⟨hc, by simpa [LInv, hc] using hi, ?_, ?_⟩
+  · rw [hc]; exact lclosed_clean k
+  · rw [hc]; exact lflags_closed k
+
+/-- the listening socket gets at most one `disconnect`, in every history -/
+theorem listener_disconnect_le_one (k : Poller.Kind) (ops : List AOp) : (arun k ops).1.ldisc ≤ 1 := by
+  have hi : LInv (arun k ops).1 := linv_arunFrom (a := AState.init k) ops (by simp [LInv, AState.init])
+  unfold LInv at hi
+  split at hi <;> omega
+
+/-- non-vacuity: start, two failed accepts (one tolerated, one re-raised), an accept, a dead-on-arrival accept, a read,
+    server-wide close; an accept answer after the close is ignored -/
+example : (atrace .epoll [.start, .lready (.errno .emfile), .lready (.errno .other), .lready (.sock 1 7 false),
+                          .lready (.sock 2 8 true), .x .closeAll, .lready (.sock 3 9 false)])
+    = [.tab [], .tab [], .tab [], .connect 1, .tab [(1, 105)], .error 2, .sclosed 2, .tab [(1, 105), (2, 128)],
+       .sclosed 1, .disconnect 1, .tab [(1, 128), (2, 128)], .tab [(1, 128), (2, 128)]] := by decide
+example : (arun .poll [.start]).1.l = .listening ∧ (arun .poll [.start]).1.c.p.w.canOpen 1 7 = true := by decide
+example : lflags .poll .listening = 104 ∧ lflags .select .listening = 40 := by decide
+example : Obs.disconnect 1 ∈ atrace .select [.start, .lready (.sock 1 7 false), .x .stop] := by decide
+example : (arun .select [.start, .lready (.errno .other), .lclose, .x .stop]).1.raised = 1 ∧
+    (arun .select [.start, .lready (.errno .other), .lclose, .x .stop]).1.ldisc = 1 := by decide
 
 end CV.C12
